@@ -14,7 +14,7 @@ use deadpool::Runtime;
 use deadpool_sync::{InteractError, SyncWrapper};
 use serde_json::{json, Value};
 
-struct Shared { events: Vec<Value>, gates: HashMap<u64, bool>, finished: HashMap<u64, bool>, async_thread: Option<ThreadId>, cur_gate: u64, backend: Value }
+struct Shared { events: Vec<Value>, gates: HashMap<u64, bool>, finished: HashMap<u64, bool>, arrived: HashMap<u64, bool>, busy: Option<(i64, std::time::Instant)>, async_thread: Option<ThreadId>, cur_gate: u64, backend: Value }
 type Sh = Arc<(Mutex<Shared>, Condvar)>;
 
 fn kind(sh: &Sh) -> &'static str {
@@ -24,6 +24,7 @@ fn kind(sh: &Sh) -> &'static str {
 fn ev(sh: &Sh, v: Value) { sh.0.lock().unwrap().events.push(v); }
 fn wait_gate(sh: &Sh, k: u64) {
     let mut g = sh.0.lock().unwrap();
+    g.arrived.insert(k, true); sh.1.notify_all();
     while !g.gates.get(&k).copied().unwrap_or(false) { g = sh.1.wait(g).unwrap(); }
 }
 fn finish(sh: &Sh, k: u64) { let mut g = sh.0.lock().unwrap(); g.finished.insert(k, true); sh.1.notify_all(); }
@@ -83,7 +84,21 @@ fn main() {
     let path = std::env::args().nth(1).expect("usage: dp-replay-sync <trace.json>");
     let trace: Value = serde_json::from_str(&std::fs::read_to_string(&path).unwrap()).unwrap();
     if std::env::var("DP_REPLAY_DEBUG").is_err() { std::panic::set_hook(Box::new(|_| {})); }
-    let sh: Sh = Arc::new((Mutex::new(Shared { events: vec![], gates: HashMap::new(), finished: HashMap::new(), async_thread: Some(std::thread::current().id()), cur_gate: 0, backend: trace["backend"].clone() }), Condvar::new()));
+    let sh: Sh = Arc::new((Mutex::new(Shared { events: vec![], gates: HashMap::new(), finished: HashMap::new(), arrived: HashMap::new(), busy: None, async_thread: Some(std::thread::current().id()), cur_gate: 0, backend: trace["backend"].clone() }), Condvar::new()));
+    // watchdog: an action of the async thread that does not come back (it waits for a lock a running closure holds) is
+    // reported as ["blocked"] and ends the replay
+    { let sh = sh.clone();
+      std::thread::spawn(move || loop {
+          std::thread::sleep(Duration::from_millis(50));
+          let mut g = sh.0.lock().unwrap();
+          if let Some((i, t0)) = g.busy {
+              if t0.elapsed() > Duration::from_millis(1500) {
+                  let events = std::mem::take(&mut g.events);
+                  println!("{}", json!({"i": i, "res": ["blocked"], "events": events}));
+                  std::process::exit(0);
+              }
+          }
+      }); }
     let rt = tokio::runtime::Builder::new_current_thread().enable_time().max_blocking_threads(1).build().unwrap();
     rt.block_on(async {
         let waker = noop_waker();
@@ -110,11 +125,28 @@ fn main() {
         for (i, a) in trace["actions"].as_array().unwrap().iter().enumerate() {
             let kindv = a[0].as_str().unwrap();
             let mut res = json!(["ok"]);
+            if kindv != "run" { sh.0.lock().unwrap().busy = Some((i as i64, std::time::Instant::now())); }
             match kindv {
                 "run" => {
                     let k = a[1].as_u64().unwrap();
-                    let ok = release_and_wait(&sh, k, true);
-                    res = if ok { json!(["ran"]) } else { json!(["run_timeout"]) };
+                    match a.get(2).and_then(|x| x.as_str()).unwrap_or("ran") {
+                        "running" => {
+                            // the task is picked up by the blocking pool on its own: wait until its closure has been entered
+                            let g = sh.0.lock().unwrap();
+                            let (_g, to) = sh.1.wait_timeout_while(g, Duration::from_secs(3), |s| !s.arrived.get(&k).copied().unwrap_or(false)).unwrap();
+                            res = if to.timed_out() { json!(["run_timeout"]) } else { json!(["running"]) };
+                        }
+                        "blocked" => {
+                            std::thread::sleep(Duration::from_millis(300));
+                            let g = sh.0.lock().unwrap();
+                            let moved = g.arrived.get(&k).copied().unwrap_or(false) || g.finished.get(&k).copied().unwrap_or(false);
+                            res = if moved { json!(["not_blocked"]) } else { json!(["blocked"]) };
+                        }
+                        _ => {
+                            let ok = release_and_wait(&sh, k, true);
+                            res = if ok { json!(["ran"]) } else { json!(["run_timeout"]) };
+                        }
+                    }
                 }
                 "interact" => {
                     let want = a[1].as_str().unwrap().to_string(); ninteract += 1; let k = ninteract; ntask += 1; let t = ntask;
@@ -143,6 +175,7 @@ fn main() {
                 }
                 other => panic!("unknown action {}", other),
             }
+            sh.0.lock().unwrap().busy = None;
             let events = std::mem::take(&mut sh.0.lock().unwrap().events);
             println!("{}", json!({"i": i, "res": res, "events": events}));
         }
